@@ -1,14 +1,17 @@
 //! Registry of properties.
 use crate::common::Prop;
 
+pub mod c06;
 pub mod c12;
+pub mod c13;
 pub mod c14;
 pub mod c15;
+pub mod c17;
 pub mod c18;
 pub mod engine;
 
 pub fn ids() -> Vec<&'static str> {
-    vec!["C01", "C02", "C03", "C04", "C05", "C07", "C08", "C09", "C12", "C14", "C15", "C16", "C18"]
+    vec!["C01", "C02", "C03", "C04", "C05", "C06", "C07", "C08", "C09", "C12", "C13", "C14", "C15", "C16", "C17", "C18"]
 }
 
 pub fn get(id: &str) -> Option<Box<dyn Prop>> {
@@ -18,13 +21,16 @@ pub fn get(id: &str) -> Option<Box<dyn Prop>> {
         "C03" => Box::new(engine::c03()),
         "C04" => Box::new(engine::c04()),
         "C05" => Box::new(engine::c05()),
+        "C06" => Box::new(c06::C06),
         "C07" => Box::new(engine::c07()),
         "C08" => Box::new(engine::c08()),
         "C09" => Box::new(engine::c09()),
         "C12" => Box::new(c12::c12()),
+        "C13" => Box::new(c13::C13),
         "C14" => Box::new(c14::C14),
         "C15" => Box::new(c15::C15),
         "C16" => Box::new(engine::c16()),
+        "C17" => Box::new(c17::C17),
         "C18" => Box::new(c18::C18),
         _ => return None,
     })
